@@ -450,6 +450,9 @@ func TestVerifC20(t *testing.T) {
 	if out == "" {
 		t.Skip("not driven by the verification harness")
 	}
+	// the application has used the package's TIME helpers before it formats or parses its first duration (the two
+	// halves of the package share nothing a caller could see)
+	_, _ = SmartParseTime("2024-01-02 03:04:05")
 	// the process's own time zone is not UTC (containers usually run in UTC, users' machines do not): a duration has no zone
 	time.Local = time.FixedZone("PROC", 5*3600+1800)
 	seed, _ := strconv.ParseInt(os.Getenv("VERIF_SEED"), 10, 64)
